@@ -63,3 +63,28 @@ Definition is_err {A} (r : res A) : bool := match r with Err => true | Ok _ => f
 
 (* oracles that are never consulted on the path being checked *)
 Definition no_oracle : Q -> Q := fun _ => 1 # 2.
+
+(* ---------- C14: an executable instance of Model/BootMetric.v on the Scores model of C01 ---------- *)
+(* metrics s.tpr(threshold) ... with threshold a list (np.array) of thresholds: kwargs = list ext, value = list rate *)
+Definition rate_metric (f : scores -> ext -> rate) : metric_fn scores (list ext) (list rate) :=
+  fun s ts => map (f s) ts.
+(* the class Scores as a method table; names are numbered tpr, fpr, fnr, tnr *)
+Definition scores_table : class_table nat (metric_fn scores (list ext) (list rate)) :=
+  [(0%nat, rate_metric s_tpr); (1%nat, rate_metric s_fpr); (2%nat, rate_metric s_fnr); (3%nat, rate_metric s_tnr)].
+Definition getattr_scores (s : scores) (nm : nat) : metric_fn scores (list ext) (list rate) :=
+  match lookup_mro nat _ Nat.eqb [scores_table] nm with Some f => f | None => fun _ _ => [] end.
+(* the harness's counting sampler: Scores(pos = source.pos + d, neg = source.neg + d, same easy counts and flags) *)
+Definition shift_scores (d : Q) (s : scores) : scores :=
+  mk_scores (map (fun x => x + d) (pos s)) (map (fun x => x + d) (neg s)) (easy_pos s) (easy_neg s)
+            (score_class s) (equal_class s) false.
+Definition model_bootstrap_metric (src : scores) (metric : metric_arg scores (list ext) (list rate) nat)
+           (n : nat) (step : Q) (thr : list ext) : res (list (list rate)) :=
+  bootstrap_metric scores (list ext) (list rate) nat unit (fun _ c => sampling_method c) (fun _ _ _ _ => Err)
+    getattr_scores src metric
+    (mkConfig n MQuantile (SCallable (fun j s => shift_scores (inject_Z (Z.of_nat j) * step) s)))
+    (fun _ => tt) thr.
+Definition rows_close (r : res (list (list rate))) (rows : list (list rate)) : bool :=
+  match r with
+  | Ok m => list_eqb (list_eqb (rclose_abs (1 # 1000000000000000))) m rows
+  | Err => false
+  end.
